@@ -17,7 +17,9 @@ from vfw.runner import CaseResult
 PROPERTY = 'C03'
 LEVEL = 'exploration'
 RULE = (
-    "Case = start state (10) x direction x local-file situation (none / file on disk / path without file) x initial "
+    "Case = start state (10) x direction x local-file situation (none / file on disk / path without file) x progress "
+    "situation (filesize in {unknown, 0, n} x bytes_transfered in {0, partial, == filesize, > filesize}, kept consistent "
+    "with the start state; all 9^2 sequences of depth 2 are enumerated for each of the 12 situations) x initial "
     "time and queue fields, a list of operations from {queue, queue(remotely), pause, abort(reason), fail(reason), "
     "complete, incomplete, initialize, start_transferring} issued through transfer.state.X() or through "
     "TransferManager.abort/queue/pause on a real Transfer added to a real TransferManager, and the slow ingredients: "
@@ -71,6 +73,28 @@ IN_TASK_OPS = ('queue', 'queue_remotely', 'fail', 'complete', 'incomplete', 'ini
 EXEC_DELAYS = [0.0, 0.002, 0.5]
 TRANSFERRING = ('DOWNLOADING', 'UPLOADING')
 REASONS = [None, 'Requested', 'Blocked', 'File not shared', 'Cancelled', 'File not shared.', 'x']
+
+# progress fields of the start state (case field 'prog' = index of filesize * 4 + index of bytes kind)
+FILESIZES = [None, 0, 1000]
+BYTES_KINDS = ['none', 'partial', 'all', 'more']
+
+
+def progress_fields(prog, state):
+    """(filesize, bytes_transfered) of progress situation ``prog``, kept consistent with the start state: a COMPLETE
+    transfer has received exactly its (known) size, a VIRGIN transfer has received nothing."""
+    filesize = FILESIZES[prog // len(BYTES_KINDS)]
+    kind = BYTES_KINDS[prog % len(BYTES_KINDS)]
+    if state == 'COMPLETE':
+        filesize = 1000 if filesize is None else filesize
+        return filesize, filesize
+    if state == 'VIRGIN' or kind == 'none':
+        return filesize, 0
+    if kind == 'partial':
+        return filesize, (filesize // 2) if filesize else 400
+    if kind == 'all':
+        return filesize, 1000 if filesize is None else filesize
+    return filesize, (filesize or 0) + 400
+
 
 INIT_START_TIME = 1_600_000_100.0
 INIT_COMPLETE_TIME = 1_600_000_120.0
@@ -140,8 +164,12 @@ def normalise(case):
     tasks = _int(case.get('tasks', 0), 0, 3)
     if intask is not None:
         tasks |= 1
+    # progress situation: absent -> the default of the start state; else index into FILESIZES x BYTES_KINDS
+    prog = case.get('prog')
+    if prog is not None:
+        prog = _int(prog, 0, 10 ** 6) % (len(FILESIZES) * len(BYTES_KINDS))
     return types.SimpleNamespace(
-        state=state, download=download, file=file, started=started, rq=bool(case.get('rq', False)),
+        state=state, download=download, file=file, started=started, rq=bool(case.get('rq', False)), prog=prog,
         seq=bool(case.get('seq', True)), ops=ops, intask=intask, tasks=tasks,
         d=_int(case.get('d', 0), 0, 4), x=EXEC_DELAYS[_int(case.get('x', 0), 0, 10 ** 6) % len(EXEC_DELAYS)],
         ly=_int(case.get('ly', 0), 0, 3))
@@ -171,6 +199,8 @@ def initial_fields(c, path):
         f['bytes_transfered'] = 1000
     elif c.started:
         f['bytes_transfered'] = 400
+    if c.prog is not None:
+        f['filesize'], f['bytes_transfered'] = progress_fields(c.prog, s)
     if s not in ('VIRGIN', 'COMPLETE') and s not in TRANSFERRING:
         f.update(place_in_queue=3, queue_attempts=2, last_queue_attempt=5.0,
                  upload_request_attempts=1, last_upload_request_attempt=6.0)
@@ -592,6 +622,16 @@ def _evaluate(c, res, init, recs, notes, final, flags, loop_errors):
     stale_capture = any(is_stale(i) for i in range(n))
     res.label('history' if c.seq else 'schedule', 'start=' + c.state, 'download' if download else 'upload',
               'ops=%d' % n)
+    if init['filesize'] is None:
+        res.label('progress:filesize-unknown')
+    elif init['filesize'] == 0:
+        res.label('progress:empty-file')
+    if init['filesize'] == init['bytes_transfered']:
+        res.label('progress:all-bytes-transfered')
+    elif init['filesize'] is not None and init['bytes_transfered'] > init['filesize']:
+        res.label('progress:more-than-filesize')
+    elif init['bytes_transfered']:
+        res.label('progress:partial')
     if waited:
         res.label('waited-for-lock')
     if refused:
@@ -618,7 +658,9 @@ def _evaluate(c, res, init, recs, notes, final, flags, loop_errors):
     prev = c.state
     stop = False
     for a, b, i in notes:
-        stale = is_stale(i)
+        # stale dispatch explains a notification only if the captured state's own method makes that transition
+        stale = (is_stale(i) and b == op_target(ops[i].name, download)
+                 and b in EDGES.get(recs[i]['captured'], ()))
         if a != prev:
             res.violate(('C03/stale-dispatch:' if stale else 'C03/') + f'broken-chain:{prev}!={a}->{b}',
                         f'notification ({a},{b}) follows a notification that ended in {prev}; {history}')
@@ -672,6 +714,10 @@ def _evaluate(c, res, init, recs, notes, final, flags, loop_errors):
         r = recs[k]
         op = ops[k]
         stale = is_stale(k)
+        if stale:
+            # stale dispatch explains the outcome only if it is what the captured state's own method does
+            captured_accepts = op_target(op.name, download) in EDGES.get(r['captured'], ())
+            stale = (r['result'] == 'T') == captured_accepts
         prefix = 'C03/stale-dispatch:' if stale else 'C03/'
         at = m['state']
         problems = []
@@ -769,6 +815,22 @@ def enum_histories_depth3():
                 yield _base(s, direction, [_op(o, r=_reason(o, i)) for i, o in enumerate(seq)], True)
 
 
+def enum_histories_progress(depth, progs):
+    """All sequences of ``depth`` state operations per start state x direction x progress situation (filesize in
+    {unknown, 0, n} x received bytes in {0, partial, == filesize, > filesize})."""
+    for s in range(len(STATES)):
+        for direction in (0, 1):
+            for prog in progs:
+                for seq in itertools.product(range(len(OPS)), repeat=depth):
+                    yield _base(s, direction, [_op(o, r=_reason(o, i)) for i, o in enumerate(seq)], True,
+                                prog=prog, tasks=0, d=0)
+
+
+_ALL_PROGS = list(range(len(FILESIZES) * len(BYTES_KINDS)))
+# unknown size / nothing, empty file complete, known size: partial, all, more
+_MAIN_PROGS = [0, 4, 9, 10, 11]
+
+
 # 12 entry points: the 9 state operations and the 3 manager methods
 _ENTRY = [(o, False) for o in range(len(OPS))] + [(OPS.index(nm), True) for nm in MANAGER_OPS]
 
@@ -829,6 +891,7 @@ def history_strategy(draw):
         o = draw(st.integers(0, len(OPS) - 1))
         ops.append(_op(o, m=draw(st.booleans()), r=draw(st.sampled_from(REASONS))))
     return {'state': s, 'dir': direction, 'file': draw(st.sampled_from([0, 1, 1, 2])), 'started': draw(st.booleans()),
+            'prog': draw(st.sampled_from([None] + _ALL_PROGS)),
             'rq': draw(st.booleans()), 'seq': True, 'ops': ops, 'tasks': draw(st.integers(0, 3)),
             'd': draw(st.integers(0, 2)), 'x': draw(st.sampled_from([0, 0, 1])), 'ly': draw(st.sampled_from([0, 0, 1]))}
 
@@ -850,6 +913,7 @@ def schedule_strategy(draw):
                        g=draw(st.integers(0, 6)), t=draw(st.integers(0, 4)) == 0, e=draw(st.integers(0, 3)) == 0))
     return {'state': s, 'dir': direction, 'file': draw(st.sampled_from([0, 1, 1, 1, 2])),
             'started': draw(st.booleans()), 'rq': draw(st.booleans()), 'seq': False, 'ops': ops,
+            'prog': draw(st.sampled_from([None] + _ALL_PROGS)),
             'tasks': draw(st.sampled_from([0, 1, 2, 3, 3])), 'd': draw(st.integers(0, 4)),
             'x': draw(st.sampled_from([0, 0, 1, 2])), 'ly': draw(st.sampled_from([0, 1, 1, 2, 3]))}
 
@@ -880,18 +944,23 @@ def _run_shard(ctx):
     ctx.enumerate(enum_histories_depth3())
     ctx.enumerate(enum_histories_manager_depth2())
     if quick:
+        ctx.enumerate(enum_histories_progress(2, _ALL_PROGS))
         ctx.enumerate(enum_pairs([1], _SLOW_FIXED, state_entries))
         ctx.enumerate(enum_pairs([0], _NO_SLOW, state_entries, early=True))
         ctx.enumerate(enum_pairs_in_task([1], _SLOW_FIXED))
         ctx.explore(history_strategy(), 250, salt=1)
         ctx.explore(schedule_strategy(), 500, salt=2)
     else:
+        ctx.enumerate(enum_histories_progress(2, _ALL_PROGS))
+        ctx.enumerate(enum_histories_progress(3, _MAIN_PROGS))
         ctx.enumerate(enum_pairs([0, 1, 2, 3, 5], _SLOW_MORE, _ENTRY))
         ctx.enumerate(enum_pairs([0, 1, 2], _SLOW_MORE, state_entries, early=True))
         ctx.enumerate(enum_pairs_in_task([0, 1, 3, 6], _SLOW_MORE))
         ctx.explore(history_strategy(), 6000, salt=1)
         ctx.explore(schedule_strategy(), 12000, salt=2)
     ctx.extra['histories_depth3_enumerated'] = 0 if ctx.shard else len(STATES) * 2 * len(OPS) ** 3
+    ctx.extra['histories_progress_depth2_enumerated'] = (
+        0 if ctx.shard else len(STATES) * 2 * len(_ALL_PROGS) * len(OPS) ** 2)
     ctx.extra['histories_manager_depth2_enumerated'] = 0 if ctx.shard else len(STATES) * 2 * len(_ENTRY) ** 2
 
 
